@@ -12,7 +12,7 @@ Decided:
   LOWER      lowering `if (H) { G }` turns every hypothesis into a FromEnv clause
 """
 from core import enum_matches, select_arms, V, walk, calls, peel, callee_matches, var_name, expr_vars, trace_is_call
-from kit import need_body, has_call, short, result_expr, mentions_field, thir_all, reachable_nodes, ctor_names
+from kit import need_body, has_call, short, result_expr, mentions_field, thir_all, reachable_nodes, ctor_names, for_loops, loop_total
 
 
 def run(ck, facts, tier):
@@ -130,6 +130,12 @@ def run(ck, facts, tier):
             if pcs and any(has_call(c["args"][1], "into_from_env_goal") and has_call(c["args"][2], "from_env") and "trait_ref" in expr_vars(c["args"][2]) for c in pcs) \
                     and not has_call(l["scrut"], ("take", "skip", "filter")):
                 ok = True
+        for l, it, pat, lbody in for_loops(th):
+            if "where_clauses" in expr_vars(it):
+                if not loop_total(ck, R, "TraitDatum:implied-bound-loop-total", tb.where(l.get("ln")), lbody,
+                                  lambda n: n.get("k") == "call" and has_call(n, "push_clause") and has_call(n, "into_from_env_goal"),
+                                  what="a where clause of the trait"):
+                    ok = False
         if ok:
             ck.ok(R, "TraitDatum:FromEnv(wc):-FromEnv(trait_ref) for every where clause")
         else:
